@@ -18,8 +18,10 @@ RULE_VERTEX = (
     "non-trivial = Ok with >= 2 vertices, or Err InputPluginFailed with >= 1 vertex; distinct by full case")
 RULE_EDGE = (
     "the REAL edge plugin (EdgeRtreeInputPluginBuilder.build on WKT geometry / road class / vehicle restriction files "
-    "written per case) processes one query: 0..100 linestrings (degenerate, horizontal, vertical, two-segment) whose "
-    "geo centroid is on the 1/8-degree grid, road_classes in the query (integers or names through the parser mapping, "
+    "written per case) processes one query: 0..100 linestrings (degenerate, horizontal, vertical, two-segment, and "
+    "3-6 point hairpins / closed rings / ramp loops / culs-de-sac / L-shapes in 8 orientations whose centroid lies outside "
+    "the box of their end points, in networks large enough for internal r-tree nodes) whose geo centroid is exactly on the "
+    "1/8-degree grid, queries on / near centroids and end points, road_classes in the query (integers or names through the parser mapping, "
     "unparseable values) excluding the nearest 0..5 edges, vehicle_parameters making the nearest 1..3 edges "
     "inadmissible (verdict per edge from the real VehicleRestriction::valid), tolerance around the distance of the "
     "nearest ADMISSIBLE edge in every unit, boundary values, high-latitude cases where the nearer-by-degrees excluded "
@@ -75,7 +77,7 @@ def run(chk):
             only = None
         if only not in ("vertex", "edge"):
             only = "vertex"
-    for stream, n, rule in (("vertex", 500 if quick else 6000, RULE_VERTEX), ("edge", 500 if quick else 6000, RULE_EDGE)):
+    for stream, n, rule in (("vertex", 500 if quick else 6000, RULE_VERTEX), ("edge", 700 if quick else 6000, RULE_EDGE)):
         if only not in (None, stream):
             continue
         r = vf.run_stream(binp, stream, n, chk.seed, os.path.join(chk.outdir, stream), replay=chk.replay)
